@@ -346,7 +346,12 @@ def gen_schedules(rng, n):
             d[rng.randint(0, N)] = rng.uniform(1.0, 4.0)
         t0 = float(rng.choice([0.0, 2.0, -1.5]))
         T = t0 + np.cumsum(d)
-        T = np.round(T, 6)
+        # every other schedule keeps its stamps as the arbitrary doubles real logs carry (cumulated steps, k * 0.1 products);
+        # the others are short decimals
+        rnd = (lambda x: np.round(x, 6)) if k % 2 == 0 else (lambda x: x)
+        if k % 4 == 3:
+            T = t0 + np.arange(1, N + 1) * 0.1 if kind == "uniform" else T
+        T = rnd(T)
         sensors = []
         for s in range(int(rng.randint(0, 4))):
             style = rng.choice(["on_samples", "fractional", "clustered", "outside", "mixed"])
@@ -362,14 +367,14 @@ def gen_schedules(rng, n):
                 ts = [t0 - 1.0, T[-1] + 0.5, T[-1], t0]
             else:
                 ts = list(rng.uniform(t0 - 0.5, T[-1] + 0.5, 6)) + [float(T[rng.randint(0, N)])]
-            sensors.append(sorted(set(float(np.round(x, 6)) for x in ts)))
+            sensors.append(sorted(set(float(rnd(x)) for x in ts)))
         if len(sensors) >= 2 and rng.rand() < 0.5:
             sensors[1] = sorted(set(sensors[1] + sensors[0][:2]))        # stamps shared between sensors
         if k % 5 == 4:
             # a whole-second sensor listed FIRST (stored with an integer index) next to fractional-second ones
             t_lo, t_hi = int(np.ceil(t0)), int(np.floor(T[-1]))
             whole = [float(x) for x in range(t_lo, t_hi + 1)]
-            frac = sorted(set(float(np.round(x, 6)) for x in rng.uniform(t0, T[-1], 5)))
+            frac = sorted(set(float(rnd(x)) for x in rng.uniform(t0, T[-1], 5)))
             sensors = [whole if whole else frac, frac] + sensors[:1]
         step = float(rng.choice([0.03, 0.1, 0.25, 1.0, 2 * (T[-1] - t0)]))
         mode = "list" if sensors else str(rng.choice(["none", "empty"]))
